@@ -11,6 +11,8 @@ pub mod rbac;
 pub mod proxy;
 #[path = "agent/canon.rs"]
 pub mod canon;
+#[path = "agent/trunc.rs"]
+pub mod trunc;
 
 pub fn main() {
     let engine = std::env::var("VERIF_ENGINE").unwrap_or_default();
@@ -19,6 +21,7 @@ pub fn main() {
         "rbac" => rbac::run(),
         "proxy" => proxy::run(),
         "canon" => canon::run(),
+        "trunc" => trunc::run(),
         _ => {
             eprintln!("unknown engine {:?}", engine);
             std::process::exit(2);
